@@ -17,13 +17,26 @@ source carries the integration variable to the power -1:
   * when the next step of the chain differentiates in the same variable through the code, the polynomial
     it returns has the value of the original polynomial.
 
+  * EXACT term-wise judgement, whatever the size of the numbers (no sampling): dense type - position 0 is 0 and position
+    k + 1 is `c_k / (k + 1)` (one rounding) at every position, every length (65 537 coefficients included); sparse type -
+    a term containing the variable with power p becomes coefficient `c / (p + 1)`, power `p + 1`, every other factor
+    untouched bit for bit; a term without it keeps its coefficient bit for bit and gains `v^1`; terms of power -1 are
+    skipped (outside the domain), the terms beside them are still judged;
+  * the univariate entry point (and `analytical_integral`) on a polynomial with several variables must answer with an error;
+  * (harness, c04.rs) the duplicated entry points agree: `indefinite_integral_simple` / `indefinite_integral_intermediate`
+    (owned / borrowed names, slice / Deref forms) against the trait methods.
+
 `analytical`, `additive`, `swap` (polynomials with <= 1 variable): each returned integral is compared with the
 exact integral in rationals, F(b) - F(a) for the exact antiderivative F, within
 `max(16, 2(deg + terms + 4)) * u * sum|F-terms|` where sum|F-terms| adds |term of F| at both bounds (one rounding
 for c/(p+1), <= deg for the power, one per product and per addition); additivity I(a,c) + I(c,b) = I(a,b) and the
 sign change I(b,a) = -I(a,b) are checked within the sum of the bounds of the integrals involved.  Domain:
 bounds positive when an exponent is fractional; when an exponent is negative the interval must not contain 0
-(the integral does not exist otherwise).  Fractional exponents are checked in double precision (1e-11).
+(the integral does not exist otherwise).  Fractional exponents are checked in double precision (1e-11).  The bound is
+relative to the F-terms at the bounds, so a narrow interval is judged as sharply as its bounds are small (a = 2^-40,
+b - a = 2^-60: a result 0 is seen); next to 1 the cancellation in F(b) - F(a) itself limits what "up to rounding" can
+promise.  The oracle abstains when a power or a partial product leaves [2^-900, 2^900] (the code's `0 * inf` is NaN:
+e.g. the zero polynomial `0y^512` at -4.5 - overflow is outside the rounding model; K still decides there).
 """
 import os, math, hashlib, random, importlib.util
 from fractions import Fraction
@@ -39,7 +52,10 @@ sparse, all_integer, all_vars, finite, own_var = c03.sparse, c03.all_integer, c0
 RULE = ("polynomials are obtained by running the real parsers on grammar-generated texts (as for C03) after a fixed list "
         "of corner texts; requests integ / pinteg (variable present, absent, fresh, multi-letter) / analytical / additive / "
         "swap with dyadic bounds (any sign and order, 0 included, when all exponents are natural numbers; positive "
-        "otherwise) / chains integrate-then-differentiate; non-trivial = the model's answer contains a polynomial with "
+        "otherwise) / chains integrate-then-differentiate; bound pairs: independent, narrow away from 0 (relative width "
+        "2^-1..2^-50), both tiny with a gap 2^-54..2^-100, equal, symmetric, a signed zero, tiny-to-huge; split points inside, "
+        "outside, on a bound; integration variables that sort before / between / after the names in use and the other case "
+        "of a name; the hardening texts of C03 plus powers next to -1; non-trivial = the model's answer contains a polynomial with "
         "at least one term or a numeric integral (not an error); distinct = distinct request lines")
 
 
@@ -74,12 +90,61 @@ def has_minus_one(sp, v):
     return any(e == -1 for e in c03.exponents_of(sp, v))
 
 
+close = c03.close
+
+
+def check_dense_integ_exact(src, got, what):
+    """dense type, every size: position 0 is 0, position k + 1 is c_k / (k + 1) (one rounding)"""
+    cs, gs = src[2], got[2]
+    name = own_var(src)
+    for k, c in enumerate(cs):
+        g = gs[k + 1]
+        if g == c / (k + 1):
+            continue
+        if not close(g, Fraction(c) / (k + 1)):
+            return f"{what}: coefficient of {name}^{k + 1} is {g!r}, the rule gives {c!r} / {k + 1} = {c / (k + 1)!r}"
+    return None
+
+
+def check_integ_terms_exact(src, got, v, what):
+    """sparse type, term by term: c / (p + 1) and power p + 1 on the variable, or the coefficient untouched and v^1
+    added when the term does not contain it; the other factors untouched.  Terms of power -1 are outside the domain."""
+    for (c, vs), (gc, gvs) in zip(src[1], got[1]):
+        names = [n for n, _ in vs]
+        if len(set(names)) != len(names):
+            continue                      # a name twice in one term (not parser-made): values only
+        gvs = sorted(gvs, key=lambda t: t[0])
+        if v in names:
+            p = dict(vs)[v]
+            if p == -1:
+                continue
+            want_c, ulps = Fraction(c) / (Fraction(p) + 1), 4
+            want = sorted([(n, ("plus1", e)) if n == v else (n, e) for n, e in vs], key=lambda t: t[0])
+        else:
+            want_c, ulps = Fraction(c), 0
+            want = sorted(list(vs) + [(v, 1.0)], key=lambda t: t[0])
+        ok = (gc == c if ulps == 0 else close(gc, want_c, ulps)) and [n for n, _ in gvs] == [n for n, _ in want]
+        if ok:
+            for (_, ge), (_, we) in zip(gvs, want):
+                if isinstance(we, tuple):
+                    ok = ok and close(ge, Fraction(we[1]) + 1)
+                else:
+                    ok = ok and ge == we
+        if not ok:
+            return (f"{what}: source term {c03.fmt_term(c, vs)} should become coefficient {float(want_c)!r} with {v} raised by "
+                    f"one (added at power 1 when absent), the result has {c03.fmt_term(gc, gvs)}")
+    return None
+
+
 def check_integ_step(src, step, seg, rnd):
     v, expect = c03.step_variable(src, step)
     what = {"i": "indefinite_integral_univariate", "J": f"indefinite_integral_multivariate({step[1]!r})"}[step[0]]
     if seg[0] == "panic":
         return f"{what} panicked"
     if expect == "err":
+        if seg[0] != "err":
+            return (f"{what} on a polynomial in {src[2]} returned a polynomial although the variable to integrate in is "
+                    f"ambiguous (TooManyVariables expected)")
         return None
     if seg[0] == "err":
         if expect == "ok":
@@ -91,8 +156,20 @@ def check_integ_step(src, step, seg, rnd):
     if expect == "identity":
         return None
     ssp = sparse(src)
-    if ssp is None or has_minus_one(ssp, v):
-        return None                      # outside the property's domain (power -1, or NaN/inf already there)
+    if ssp is None:
+        return None                      # NaN/inf already there
+    # exact structure first (it also judges the terms beside a term of power -1)
+    if src[0] == "S":
+        if got[1] == src[1] and len(got[2]) == len(src[2]) + 1:
+            e = check_dense_integ_exact(src, got, what)
+            if e:
+                return e
+    elif len(got[1]) == len(src[1]):
+        e = check_integ_terms_exact(src, got, v, what)
+        if e:
+            return e
+    if has_minus_one(ssp, v):
+        return None                      # outside the property's domain (power -1)
     gsp = sparse(got)
     if gsp is None:
         return f"{what} produced a non-finite number although no term has power -1 in {v!r}"
@@ -103,6 +180,8 @@ def check_integ_step(src, step, seg, rnd):
             return f"{what}: {len(got[2])} coefficients from {len(src[2])}"
         if got[2][0] != 0:
             return f"{what}: constant of integration {got[2][0]!r}, expected 0"
+        if len(src[2]) > c03.BIG:
+            return None                   # the coefficient-wise check above is exact and complete
     else:
         e = c03.wf_exact(got)
         if e:
@@ -157,25 +236,34 @@ def exact_integral(p, a, b):
         if not all_vars(sp) <= {v}:
             return None
     F = antiderivative(sp, v)
-    if F is None:
+    if F is None or len(F) > c03.BIG:
         return None
     exps = c03.exponents_of(sp, v) + c03.exponents_of(F, v)
     fa, fb = Fraction(a), Fraction(b)
     if any(not c03.is_int(e) for e in exps):
         if not (a > 0 and b > 0):
             return None
-        va = c03.term_values_float(F, {v: fa})
-        vb = c03.term_values_float(F, {v: fb})
+        try:
+            va = c03.term_values_float(F, {v: fa})
+            vb = c03.term_values_float(F, {v: fb})
+            facs = [math.pow(float(x), float(d[v])) for x in (fa, fb) for _, d in F if v in d] + [float(c) for c, _ in F]
+        except (OverflowError, ValueError, ZeroDivisionError):
+            return None
+        mags = [abs(t) for t in va + vb + facs if t != 0]
+        if mags and (max(mags) > 1e250 or min(mags) < 1e-250):
+            return None
         val = math.fsum(vb) - math.fsum(va)
         scale = math.fsum(abs(t) for t in va) + math.fsum(abs(t) for t in vb)
         return ("float", val, scale)
     if any(e < 0 for e in exps):
         if a == 0 or b == 0 or (a < 0) != (b < 0):
             return None
-    va = c03.term_values_exact(F, {v: fa})
-    vb = c03.term_values_exact(F, {v: fb})
+    if p[0] == "S" and not c03.top_power_in_range(p, (fa, fb), extra=1):
+        return None                       # a zero coefficient times an overflowing power is NaN in the code: out of range
+    va = c03.term_values_exact(F, {v: fa}, guard=True)
+    vb = c03.term_values_exact(F, {v: fb}, guard=True)
     if va is None or vb is None:
-        return None
+        return None                       # 0 to a negative power, or overflow / underflow on the way
     deg = max([abs(e) for e in exps] + [0])
     return ("exact", sum(vb) - sum(va), sum(abs(t) for t in va) + sum(abs(t) for t in vb), deg, len(F))
 
@@ -191,6 +279,9 @@ def check_one(p, a, b, seg, label):
     """-> (error | None, exact | None)"""
     if seg[0] == "panic":
         return f"analytical_integral{label} panicked", None
+    if p[0] == "I" and len(p[2]) > 1 and seg[0] != "err":
+        return (f"analytical_integral{label} on a polynomial in {p[2]} returned {seg[1]!r} although the variable to "
+                f"integrate in is ambiguous (an error is expected)"), None
     ex = exact_integral(p, a, b)
     if ex is None:
         return None, None
@@ -208,10 +299,8 @@ def check_one(p, a, b, seg, label):
 
 
 def oracle(req, impl):
-    # polynomials at the parser's exponent limit (65 537 coefficients): exact evaluation at such degrees is out
-    # of reach of the rational oracle; these requests are decided by the bit-for-bit correspondence alone
-    if len(req) > 20000:
-        return None
+    # polynomials at the parser's exponent limit (65 537 coefficients) are judged coefficient-wise (exact); their definite
+    # integrals when the non-zero terms are few and in range
     try:
         t = Toks(req)
         text = skip_txt(t)
